@@ -154,7 +154,7 @@ Example C04_trace_nonvacuous :
   pre_trace ex_net (prim_pre ex_net) tr (init_state ex_net) /\ 2 <= NN ex_net /\ NoDup (output ex_net).
 Proof.
   cbn zeta. split; [|split; [vm_compute; lia|repeat constructor; cbn; intuition lia]].
-  cbn [pre_trace prim_pre prim_pre1 prim_pre0].
+  cbn [pre_trace prim_pre prim_preN prim_pre1 prim_pre0].
   repeat match goal with
   | |- _ /\ _ => split
   | |- pair_pre _ _ _ _ _ _ _ => unfold pair_pre
@@ -226,7 +226,8 @@ Print Assumptions C04_checked_trace_from_fresh_tree.
 Example C04_checked_trace_nonvacuous :
   let tr := [PPair [0] [1] None None None; PPair [0;1] [2] None None None; PStats false;
              PRemoveNode [0;1;2]; PPair [0;1] [2] None (Some 8%Z) (Some 4%Z);
-             PRemoveInd 0 None; PSortInds PrFlops true true false; PGet GEq [0;1;2]; PRemoveInd 2 (Some 1)] in
+             PRemoveInd 0 None; PSortInds PrFlops true true false; PGet GEq [0;1;2]; PRemoveInd 2 (Some 1);
+             PRestoreInd 0; PRestoreInd 2; PRemoveInd 1 None; PRestoreInd 1] in
   pre_trace_b ex_net tr (init_state ex_net) = true /\
   cost_inv_b ex_net (run ex_net tr (init_state ex_net)) = true /\
   prim_pre_b ex_net (PPair [0;1] [2] None (Some 8%Z) (Some 5%Z))
